@@ -6,7 +6,7 @@ ids=[p['id'] for p in props]
 
 CLAIMS = {
  "C01": dict(
-   technique="runtime monitoring: differential twin (matrix form vs scalar form in the same build) + independent reference arithmetic over a systematic operator x kind x shape-pair sweep; dispatch-arm coverage monitor",
+   technique="runtime monitoring: differential twin (matrix form vs scalar form in the same build) + independent reference arithmetic over a systematic operator x kind x shape-pair sweep; dispatch-arm coverage monitor; Miri stage: the kernels these constructs dispatch to are driven directly (crate /verif/miri) under the undefined-behaviour interpreter with the same value oracles",
    text="Every swept cell (17 operators x 16 kinds x up to 110 shape pairs, 1-3 value draws) is executed through Interpreter::interpret on API-bound operands and judged elementwise against scalar evaluations and exact/IEEE reference arithmetic; incompatible shapes must be errors. Held on the executions produced, nothing is claimed for unvisited shapes or values. Each operand is written as an API-bound variable or as an inline literal (all four combinations; comparison operands come from a small pool so ties are frequent).",
    note="Trusts: the harness' reference arithmetic (i128/u128 checked, Rust f64/f32 primitives), canonicalisation through Matrix::as_vec/shape, and that binding operands with ProgramState::save_symbol is equivalent to defining them in source (a literal-built stratum cross-checks this).",
    ref="6/C01"),
@@ -31,7 +31,7 @@ CLAIMS = {
    note="Trusts Rust's float parser as the nearest-value oracle and the harness generator's reading of specification section 4.2 (underscores only inside float digit sequences; signed kinds via annotation).",
    ref="6/C13"),
  "C15": dict(
-   technique="runtime monitoring: exact rational progression model compared term by term with interpreted ranges over a kind x form x scenario sweep with random magnitudes; chk and rel flavours",
+   technique="runtime monitoring: exact rational progression model compared term by term with interpreted ranges over a kind x form x scenario sweep with random magnitudes; chk and rel flavours; Miri stage: the kernels these constructs dispatch to are driven directly (crate /verif/miri) under the undefined-behaviour interpreter with the same value oracles",
    text="For each cell the API-bound operands a, s, b of one kind are interpreted through a..b, a..=b, a..s..b, a..s..=b; the result must be exactly the progression (count, every term, kind), unbuildable ranges must be an error or empty, and x[a..=b] must select what the range value lists. Start, step and end are each a variable, an inline literal or a name bound by an enclosing comprehension generator (with decoy globals); spans wider than the kind maximum and the full span of the 8-bit kinds are included.",
    note="Trusts the harness' exact rational arithmetic; inexact decimal float steps are judged within 1 ulp and without a count; orientation of the result vector is not judged.",
    ref="6/C15"),
@@ -51,7 +51,7 @@ CLAIMS = {
    note="Pairs for which every value is rejected are treated as 'no conversion' (allowed by the property). Unconstrained cases (narrowing integers, inexact floats) are only judged through the matrix-vs-scalar twin.",
    ref="6/C12"),
  "C14": dict(
-   technique="runtime monitoring: mathematical-set reference model over small universes with several spellings per element; structural invariant monitor (distinct elements, single kind, size = cardinality) applied to every set value observed",
+   technique="runtime monitoring: mathematical-set reference model over small universes with several spellings per element; structural invariant monitor (distinct elements, single kind, size = cardinality) applied to every set value observed; Miri stage: the kernels these constructs dispatch to are driven directly (crate /verif/miri) under the undefined-behaviour interpreter with the same value oracles",
    text="Pairs of subsets of 5-element universes (f64, signed zeros, u8, i64, rationals with unreduced spellings, strings, bools, tuples, nested sets with permuted inner orders) are written as literals in permuted insertion orders and combined with every set operator, relation and membership test, chained, and built by comprehensions; results are compared with the mathematical result after mapping elements back to universe ids learned from singleton literals. Operands are written as variables or inline literals in every combination; sets converted from matrices with repeated entries and literals of mixed element kinds (must be rejected) are included.",
    note="Element identity is the language's own equality (0 = -0, 2/4 = 1/2, {1,2} = {2,1}). Universes whose spellings exercise a recorded defect (signed zeros, permuted inner sets) are separate cells so the plain universes stay fully monitored.",
    ref="6/C14"),
@@ -66,7 +66,7 @@ CLAIMS = {
    note="Bound: largest single request <= 64 MiB + 64 x file length; the monitor refuses requests above 1 GiB so they are observed as aborts. Hangs surface through the watchdog as inconclusive (never a verdict by wall-clock).",
    ref="6/C07"),
  "C19": dict(
-   technique="runtime monitoring: snapshot comparison across independent interpreters, across step(0,n) vs n single steps, and across separate worker processes (digest of all snapshots per program compared by the driver); invariance monitor for assignment-free programs",
+   technique="runtime monitoring: snapshot comparison across independent interpreters, across step(0,n) vs n single steps, and across separate worker processes (digest of all snapshots per program compared by the driver); invariance monitor for assignment-free programs; Miri stage: the kernels these constructs dispatch to are driven directly (crate /verif/miri) under the undefined-behaviour interpreter with the same value oracles",
    text="Each generated program is interpreted and its plan re-run for n in {1,2,3,7} steps in fresh interpreters; snapshots of all variables must agree between two interpreters, between one n-step request and n single steps, and (through digests) between 3 (quick) / 8 (thorough) separate processes with different hash seeds; programs without assignment statements must keep every variable exactly as the first evaluation left it. The corpus of 632 test programs and a sweep of every registered native function x argument shapes (variables and literals) are stepped too; a profiled interpreter must take the same steps.",
    note="Panics escaping step() are caught and reported; the digest covers the snapshot after interpret and after every step count.",
    ref="6/C19"),
